@@ -424,6 +424,16 @@ impl HuginnNetTls {
         )
     }
 
+    /// Per-packet entry for external runtime monitors: runs the private `process_packet`
+    /// (filter, parse, analyse) on one frame against this analyzer's own flow table.
+    #[cfg(feature = "verif-hooks")]
+    pub fn verif_process_packet(
+        &mut self,
+        packet: &[u8],
+    ) -> Result<Option<TlsClientOutput>, HuginnNetTlsError> {
+        self.process_packet(packet)
+    }
+
     /// Processes a single packet and extracts TLS information if present.
     ///
     /// # Parameters
